@@ -70,3 +70,59 @@ package proto
 //@ iface ReaderI.Close
 //@   ensures prClosed(this)
 //@   modifies prClosed(this)
+
+// ---------------------------------------------------------------------------------------------------
+// The message wrappers add nothing of their own: what the record writer / reader below reports is what they report (C11),
+// the bytes written are the marshalled message, the message decoded is the record read at the offset asked for (C03).
+
+//@ func (*Writer).Open
+//@   props C11 C02
+//@   requires w.writer != nil
+//@   exit [C11:open-error-reported] called(WriterI.Open, 0) && r0 == callres(WriterI.Open, 0, 0)
+
+//@ func (*Writer).Close
+//@   props C11 C02 C19
+//@   requires w.writer != nil
+//@   exit [C11,C19:close-reaches-the-file-writer] called(WriterI.Close, 0) && r0 == callres(WriterI.Close, 0, 0)
+
+//@ func (*Writer).Write
+//@   props C11 C02 C15
+//@   requires w.writer != nil
+//@   exit [C11:marshal-error-reported] callres(proto.Marshal, 0, 1) != nil ==> r1 != nil && !called(WriterI.Write, 0)
+//@   exit [C11:write-result-passed-on] called(WriterI.Write, 0) ==> r0 == callres(WriterI.Write, 0, 0) && r1 == callres(WriterI.Write, 0, 1)
+//@   exit [C11:success-means-written] r1 == nil ==> called(WriterI.Write, 0)
+//@   call 0 of WriterI.Write: assert [writes-the-marshalled-message] arr(arg0) == arr(callres(proto.Marshal, 0, 0)) && len(arg0) == len(callres(proto.Marshal, 0, 0))
+
+//@ func (*Writer).WriteSync
+//@   props C11 C02 C07
+//@   requires w.writer != nil
+//@   exit [C11:marshal-error-reported] callres(proto.Marshal, 0, 1) != nil ==> r1 != nil && !called(WriterI.WriteSync, 0)
+//@   exit [C11:write-result-passed-on] called(WriterI.WriteSync, 0) ==> r0 == callres(WriterI.WriteSync, 0, 0) && r1 == callres(WriterI.WriteSync, 0, 1)
+//@   exit [C11,C07:success-means-written-synchronously] r1 == nil ==> called(WriterI.WriteSync, 0)
+//@   call 0 of WriterI.WriteSync: assert [writes-the-marshalled-message] arr(arg0) == arr(callres(proto.Marshal, 0, 0)) && len(arg0) == len(callres(proto.Marshal, 0, 0))
+
+//@ func (*MMapProtoReader).ReadNextAt
+//@   props C03 C09 C11
+//@   exit [read-error-reported] callres(ReadAtI.ReadNextAt, 0, 1) != nil ==> r1 != nil && r0 == nil
+//@   exit [decode-error-reported] called(proto.Unmarshal, 0) && callres(proto.Unmarshal, 0, 0) != nil ==> r1 != nil && r0 == nil
+//@   exit [decoded-message-returned] r1 == nil ==> r0 == record && called(proto.Unmarshal, 0)
+//@   call 0 of ReadAtI.ReadNextAt: assert [reads-at-the-offset-asked-for] arg0 == offset
+//@   call 0 of proto.Unmarshal: assert [decodes-the-record-read-into-the-callers-message] arr(arg0) == arr(callres(ReadAtI.ReadNextAt, 0, 0)) &&
+//@        len(arg0) == len(callres(ReadAtI.ReadNextAt, 0, 0)) && arg1 == record
+
+//@ func (*MMapProtoReader).SeekNext
+//@   props C03 C09 C11
+//@   exit [seek-error-reported] callres(ReadAtI.SeekNext, 0, 2) != nil ==> r2 != nil && r1 == nil
+//@   exit [decode-error-reported] called(proto.Unmarshal, 0) && callres(proto.Unmarshal, 0, 0) != nil ==> r2 != nil && r1 == nil
+//@   exit [decoded-message-and-its-offset-returned] r2 == nil ==> r1 == record && r0 == callres(ReadAtI.SeekNext, 0, 0) && called(proto.Unmarshal, 0)
+//@   call 0 of ReadAtI.SeekNext: assert [seeks-from-the-offset-asked-for] arg0 == offset
+//@   call 0 of proto.Unmarshal: assert [decodes-the-record-found-into-the-callers-message] arr(arg0) == arr(callres(ReadAtI.SeekNext, 0, 1)) &&
+//@        len(arg0) == len(callres(ReadAtI.SeekNext, 0, 1)) && arg1 == record
+
+//@ func (*Reader).ReadNext
+//@   props C02 C10 C11
+//@   exit [read-error-reported] callres(ReaderI.ReadNext, 0, 1) != nil ==> r1 != nil && r0 == nil
+//@   exit [decode-error-reported] called(UnmarshalOptions.Unmarshal, 0) && callres(UnmarshalOptions.Unmarshal, 0, 0) != nil ==> r1 != nil && r0 == nil
+//@   exit [decoded-message-returned] r1 == nil ==> r0 == record && called(UnmarshalOptions.Unmarshal, 0)
+//@   call 0 of UnmarshalOptions.Unmarshal: assert [decodes-the-record-read-into-the-callers-message] arr(arg0) == arr(callres(ReaderI.ReadNext, 0, 0)) &&
+//@        len(arg0) == len(callres(ReaderI.ReadNext, 0, 0)) && arg1 == record
